@@ -1,9 +1,22 @@
 PROP = "C02"
-LEVEL = "exploration"
-CONTRACT_MODULES = ["multi_knee"]
-DEDUCTIVE = []
-EXPLANATION = "bounded run-time layer only so far"
-LEVEL_TEXT = ("Bounded exploration: multi-knee detection of all five detectors compared with the statement's recursive definition executed on the "
-              "real single-knee detector (curve families, boundary thresholds, a 2600-point curve for deep split trees). Not a proof.")
-LEVEL_NOTE = "bounded; the single-knee detectors are used as primitives by the oracle"
-TECHNIQUE = "bounded run-time contract checking (stand-in; deductive contract for multi_knee pending)"
+LEVEL = "proof"
+CONTRACT_MODULES = ["multi_knee", "detectors", "menger"]
+DEDUCTIVE = [
+    ("multi_knee", "kneeliverse.multi_knee.multi_knee"),
+    ("detectors", "kneeliverse.curvature.knee"),
+    ("detectors", "kneeliverse.menger.knee"),
+    ("detectors", "kneeliverse.dfdt.knee"),
+    ("detectors", "kneeliverse.lmethod.knee#none"),
+    ("detectors", "kneeliverse.lmethod.knee#original"),
+]
+EXPLANATION = ("multi_knee is verified in mode U against an abstract Detector contract (None or an index in [lo, len-2]): termination within 2n-1 "
+               "iterations (variant 2*right(top)-|stack|), the result is strictly increasing within [lo, n-2], and it is empty when the curve has at "
+               "most t2 points or the end-point line is on the straight side of t1. curvature, Menger, DFDT and the L-method (refinement none / "
+               "original) are verified to satisfy the Detector contract (interior index, termination). Self-similarity (the recursive equation), "
+               "Kneedle and the adjusted L-method refinement are covered by the bounded layer.")
+LEVEL_TEXT = ("Proof of termination, ordering/range and the empty-result clause of recursive multi-knee detection for every detector that meets the "
+              "abstract Detector contract, and of that contract for curvature, Menger, DFDT, L-method(none/original); bounded layer for the "
+              "self-similarity equation, Kneedle and L-method(adjusted).")
+LEVEL_NOTE = ("Fit-quality and distance primitives uninterpreted (mode U); uts.gradient / isodata assumed total and deterministic; np.argmax/argmin and "
+              "list.sort contracts assumed; Kneedle's conformance rests on uts.peak_detection and is bounded only.")
+TECHNIQUE = "contract-based deductive verification (AST->VC, z3) with an abstract contract for the callable parameter; bounded run-time layer as labelled stand-in"
